@@ -5,6 +5,7 @@ package verifsim
 // only the lifecycle glue (ServiceManager, real listener) is replaced.
 
 import (
+	"github.com/thushan/olla/internal/app/services"
 	"net/url"
 	"context"
 	"fmt"
@@ -450,9 +451,8 @@ func BuildStack(s *Sim, p *Plan) (*Stack, error) {
 	repoHC := &recRepo{EndpointRepository: st.Repo, rec: st.Rec, who: "hc"}
 	repoProxy := &recRepo{EndpointRepository: st.Repo, rec: st.Rec, who: "proxy"}
 	if !p.Stack.ProductionRegistry {
-		st.Registry, err = registry.NewModelRegistry(registry.RegistryConfig{
-			Type: cfg.ModelRegistry.Type, EnableUnifier: cfg.ModelRegistry.EnableUnifier, UnificationConf: &cfg.ModelRegistry.Unification,
-			RoutingStrategy: &cfg.ModelRegistry.RoutingStrategy, Discovery: &repoDiscovery{repo: st.Repo}}, lg)
+		// the registry's settings come from the shipped mapping of the configuration file's model_registry section
+		st.Registry, err = registry.NewModelRegistry(services.NewRegistryConfig(&cfg.ModelRegistry, &repoDiscovery{repo: st.Repo}), lg)
 	}
 	if err != nil {
 		return nil, err
@@ -538,9 +538,8 @@ func BuildStack(s *Sim, p *Plan) (*Stack, error) {
 		return nil, err
 	}
 	st.Selector = &recSelector{EndpointSelector: sel, rec: st.Rec}
-	pcfg := &proxy.Configuration{ProxyPrefix: "", ConnectionTimeout: cfg.Proxy.ConnectionTimeout, ConnectionKeepAlive: 30 * time.Second,
-		ResponseTimeout: cfg.Proxy.ResponseTimeout, ReadTimeout: cfg.Proxy.ReadTimeout, StreamBufferSize: cfg.Proxy.StreamBufferSize,
-		Profile: cfg.Proxy.Profile}
+	// the engines' settings come from the shipped mapping of the configuration file's proxy section
+	pcfg := services.NewProxyConfiguration(&cfg.Proxy)
 	var mx ports.MetricsExtractor
 	if ex, err := metrics.NewExtractor(pf, lg); err == nil {
 		mx = &recMetrics{MetricsExtractor: ex, rec: st.Rec}
